@@ -125,6 +125,9 @@ func (a *Analysis) CheckC01(rep *Report) {
 			i, d := sameShape(tl.DecMain.Layout, pl.Layout, false)
 			rep.Ob("M1-decode-paths-agree", ct.Name+"["+pl.Conds+"]", i < 0, a.P.Pos(ct.Decode.Pos()), fmt.Sprintf("decode paths disagree at field %d: %s", i, d))
 		}
+		rej := a.spuriousRejections(tl.R.DecPaths)
+		rep.Ob("M6-decoder-rejects-only-truncation", ct.Name, len(rej) == 0, a.P.Pos(ct.Decode.Pos()),
+			"Decode can return an error although every read succeeded and the discriminator is known – it refuses bytes the encoder may produce: "+strings.Join(rej, "; "))
 		enc, dec := tl.EncMain.Layout, tl.DecMain.Layout
 		rep.Ob("M1-same-length", ct.Name, len(enc.Fields) == len(dec.Fields), pos,
 			fmt.Sprintf("Encode writes %d fields, Decode reads %d: enc=[%s] dec=[%s]", len(enc.Fields), len(dec.Fields), enc.WireCanon(), dec.WireCanon()))
@@ -150,6 +153,10 @@ func (a *Analysis) CheckC01(rep *Report) {
 				fmt.Sprintf("Encode writes %s but Decode (%s) reads %s", e2.WireCanon(), a.P.Pos(fd.Pos), d2.WireCanon()))
 			rep.Ob("M1-same-field", key, fe.GoField == fd.GoField && fe.GoField >= 0, fpos,
 				fmt.Sprintf("bytes written from field %q are read into field %q (%s)", fe.Name, fd.Name, a.P.Pos(fd.Pos)))
+			if fd.Kind == "dyn" {
+				dup := a.duplicateKeys(fd.Table)
+				rep.Ob("M2-table-unambiguous", key, dup == "", fpos, "discriminator table "+fd.Table+" registers "+dup+" more than once: which body type decodes depends on init order")
+			}
 			if fe.Kind == "dyn" || fd.Kind == "dyn" {
 				rep.Ob("M2-dynamic-part", key, fe.Kind == fd.Kind && (fe.Table == "" || (fe.Table == fd.Table && fe.Key == fd.Key)), fpos,
 					fmt.Sprintf("encoder materialises from %s by %s, decoder from %s by %s", fe.Table, fe.Key, fd.Table, fd.Key))
